@@ -620,9 +620,21 @@ class Gen:
             return self.lit()
         if r < 0.38:
             return ("filesize",)
-        if r < 0.5 and self.strings:
+        if r < 0.44 and self.strings:
             self.note("count")
             return ("count", rng.choice(self.strings))
+        if r < 0.5 and self.strings:
+            self.note("count_in")
+            s = rng.choice(self.strings)
+            k = rng.random()
+            if k < 0.5:
+                lo, hi = self.range_bounds()
+            else:
+                # bounds sitting exactly on match offsets
+                lo = ("int", rng.choice([0, 1, 2]), 0) if rng.random() < 0.5 else ("offset", s, ("int", rng.choice([1, 2]), 0))
+                hi = ("offset", s, ("int", rng.choice([1, 2, 3]), 0)) if rng.random() < 0.7 else \
+                    ("bin", "+", ("offset", s, None), ("int", rng.choice([0, 1, 2, 5]), 0))
+            return ("count_in", s, lo, hi)
         if r < 0.6 and self.strings:
             self.note("offset")
             idx = None if rng.random() < 0.3 else self.small_index()
